@@ -154,7 +154,7 @@ func (g *rgen) msgOps(s *rsession, k int, fields []int, full bool) []*rop {
 			ops = append(ops, &rop{code: "which", r: k, f: j, a: -1})
 		}
 	}
-	ops = append(ops, &rop{code: "range", r: k, a: -1}, &rop{code: "rstop", r: k, a: -1}, &rop{code: "getunk", r: k, a: -1},
+	ops = append(ops, &rop{code: "range", r: k, a: -1}, &rop{code: "rstop", r: k, a: -1, n: 1}, &rop{code: "rstop", r: k, a: -1, n: 2}, &rop{code: "rstop", r: k, a: -1, n: 3}, &rop{code: "getunk", r: k, a: -1},
 		&rop{code: "setunk", r: k, a: -1, unk: unkFor(h.mi)}, &rop{code: "valid", r: k, a: -1})
 	if full {
 		ops = append(ops, &rop{code: "setunk", r: k, a: -1, unk: nil})
@@ -200,7 +200,7 @@ func (g *rgen) handleOps(s *rsession, k int, on int) []*rop {
 		key := g.nz(fd.MapKey())
 		ops = append(ops, &rop{code: "mlen", r: k, a: -1}, &rop{code: "mhas", r: k, key: key, a: -1}, &rop{code: "mget", r: k, key: key, a: -1},
 			&rop{code: "mclear", r: k, key: key, a: -1}, &rop{code: "mmut", r: k, key: key, a: -1}, &rop{code: "mnewv", r: k, a: -1},
-			&rop{code: "mrange", r: k, a: -1}, &rop{code: "mrstop", r: k, a: -1}, &rop{code: "mvalid", r: k, a: -1})
+			&rop{code: "mrange", r: k, a: -1}, &rop{code: "mrstop", r: k, a: -1, n: 1}, &rop{code: "mrstop", r: k, a: -1, n: 2}, &rop{code: "mvalid", r: k, a: -1})
 		if !isMsgKind(fd.MapValue()) {
 			ops = append(ops, &rop{code: "mset", r: k, key: key, a: -1, lit: g.nz(fd.MapValue())}, &rop{code: "mset", r: k, key: g.lit(fd.MapKey(), 0), a: -1, lit: g.lit(fd.MapValue(), 0)})
 		}
